@@ -195,7 +195,7 @@ prop("C15", "At most one instance holds a source's leader lease at any time", "e
      "The double executes the tool's own Lua scripts through ref/minilua against its keyspace and clock. non-trivial = distinct case in which leadership was handed over after a lease period elapsed AND a non-holder resigned. "
      "Oracle after EVERY step: reference lease model {holder, expiresAt}; (1) at most one contender believes it holds an unexpired lease (belief = last successful campaign/renew + ttl; resigning ends it); (2) campaign/renew succeeds iff the model says the caller is the holder or no unexpired lease exists; a failed renew is ErrNotLeader; "
      "(3) the lease key on the double (value and expiry) equals the model exactly (so resign deletes only one's own lease, and a holder that stops renewing is gone one ttl after its last success); (4) Leader() names the model's holder; a lost call never reports success. "
-     "Second unit: every cluster section accepted by config.InitSyncerConfig (generated leaseTimeout/leaseRenewInterval incl. boundary and absurd values) has renew interval <= timeout/3 and timeout >= 1 s.",
+     "Second unit: every cluster section accepted by config.InitSyncerConfig (generated leaseTimeout/leaseRenewInterval incl. boundary and absurd values) has renew interval <= timeout/3 and timeout >= 1 s. One step kind ('between') lets another contender's campaign, and a generated amount of time (0 .. 2 lease periods, both sides of the expiry), fall BETWEEN two requests of one call; a call that is a single request (the scripts as they are) has no such moment and the step degenerates to two ordinary calls. For such a step no outcome is predicted (either order is a legal history): what each instance was told is taken as it is, the reference is re-read from the lease store, and the invariants decide (two-leaders, told-leader-without-holding-the-lease).",
      [{"pkg": "c15", "test": "TestC15",
        "quick": {"checks": 2400, "shards": 4, "timeout": 600},
        "thorough": {"checks": 120000, "shards": 16, "timeout": 5400}},
